@@ -6,11 +6,11 @@ package hdkeychain
 
 //@ func zero
 //@   modifies b[:]
-//@   ensures zeroed: forall j int :: 0 <= j && j < len(b) ==> b[j] == 0
-//@   loop i invariant zeroed-prefix: 0 <= i && i <= lenb && lenb == len(b) && (forall j int :: 0 <= j && j < i ==> b[j] == 0)
+//@   ensures zeroed: forall p int :: off(b) <= p && p < off(b) + len(b) ==> rawat(b, p) == 0
+//@   loop i invariant zeroed-prefix: 0 <= i && i <= lenb && lenb == len(b) && (forall p int :: off(b) <= p && p < off(b) + i ==> rawat(b, p) == 0)
 //@   loop i decreases lenb - i
 
 //@ func (*ExtendedKey).Zero
 //@   modifies k.key, k.version, k.depth, k.childNum, k.isPrivate, elems(byte)
-//@   ensures key-bytes-wiped: forall j int :: 0 <= j && j < len(old(k.key)) ==> old(k.key)[j] == 0
+//@   ensures key-bytes-wiped: forall p int :: off(old(k.key)) <= p && p < off(old(k.key)) + len(old(k.key)) ==> rawat(old(k.key), p) == 0
 //@   ensures key-dropped: k.key == nil && !k.isPrivate
